@@ -51,6 +51,9 @@ class NDIntrinsics(E3Intrinsics):
             fault = bool(eng.opts.get("e3_stream_fault", False))
             conc_bytes = eng.opts.get("e3_stream_bytes")
             bs = [z3.BitVec("s!%d" % i, 8) for i in range(L)] if conc_bytes is None else list(conc_bytes)
+            for b in bs:
+                if z3.is_expr(b):
+                    st.pc.append(z3.ULT(b, 0x80))        # ASCII streams (stated): multi-byte white space is outside the claim
             oid = st.alloc(tuple(bs), "stream")
             st.notes["stream"] = oid
             # (consumed, fetched, pending error already reported by the underlying reader, size)
@@ -82,12 +85,19 @@ class NDIntrinsics(E3Intrinsics):
                     return [(n, "T" if e else None)]
                 return [(0, "T")] if rem <= 0 else []
             if rem <= 0:
-                return [(0, "T")]
-            outs = []
-            for n in range(1, min(maxlen, rem) + 1):
-                outs.append((n, None))
-                if n == rem:
-                    outs.append((n, "T"))
+                outs = [(0, "T")]
+            else:
+                outs = []
+                for n in range(1, min(maxlen, rem) + 1):
+                    outs.append((n, None))
+                    if n == rem:
+                        outs.append((n, "T"))
+            pref = eng.opts.get("e3_read_prefix")
+            if pref is not None:
+                # work splitting: this run covers only the executions whose first underlying reads have these sizes
+                i = len(st.notes.get("reads", ()))
+                if i < len(pref):
+                    outs = [o for o in outs if o[0] == pref[i]]
             return outs
 
         def note_read(st, n, e):
@@ -117,6 +127,9 @@ class NDIntrinsics(E3Intrinsics):
                 st.notes["bufio"] = (pos, fetched, False, size, T, fault)
                 return (0, terminal(eng, st))
             outs = underlying(eng, st, lp)
+            if not outs:
+                st.status = "dead"
+                return (0, NILIFACE)
             items = []
             for j, (n, e) in enumerate(outs):
                 s = st if j == len(outs) - 1 else st.fork()
@@ -160,6 +173,8 @@ class NDIntrinsics(E3Intrinsics):
                         finish(s, start, fetched, terminal(eng, s))
                         continue
                     outs = underlying(eng, s, max(1, T))       # fill: one underlying read of any size
+                    if not outs:
+                        s.status = "dead"
                     for j, (n, e) in enumerate(outs):
                         s2 = s if j == len(outs) - 1 else s.fork()
                         note_read(s2, n, e)
@@ -174,6 +189,31 @@ class NDIntrinsics(E3Intrinsics):
             if not any(s is st for s, _ in results):
                 st.status = "dead"
             return Forks(results)
+
+        @reg("bytes.TrimSpace")
+        def trim_space(eng, st, fr, args, ins):
+            """ASCII white space trimmed from both ends. Only the LENGTH of the result is modelled (0 iff every byte is white
+            space, else some k in 1..len): the result keeps symbolic bounds, so any use other than len() makes the engine stop
+            with an error (= inconclusive) instead of computing something wrong."""
+            x = args[0]
+            pos = ins.get("pos")
+            n = eng.need_int(st, x.len, pos, "TrimSpace argument length")
+            if n == 0:
+                return SliceV(x.obj, x.path, x.off, 0, x.cap) if x.obj is not None else NILSLICE
+            bs = eng.slice_read_all(st, x, pos)
+            blank = []
+            for b in bs:
+                if type(b) is int:
+                    blank.append(z3.BoolVal(b in (9, 10, 11, 12, 13, 32)))
+                else:
+                    blank.append(z3.Or(b == 9, b == 10, b == 11, b == 12, b == 13, b == 32))
+            allb = simp(z3.And(blank))
+            if allb is True:
+                return SliceV(x.obj, x.path, x.off, 0, x.cap)
+            k = eng.path_fresh(st, "trim.len", 64, pos)
+            st.pc.append(z3.And(z3.UGE(k, 1), z3.ULE(k, n)))
+            ln = k if allb is False else z3.If(allb, z3.BitVecVal(0, 64), k)
+            return SliceV(x.obj, x.path, x.off, ln, x.cap)
 
         @reg("(*sync.Pool).Put")
         def pool_put(eng, st, fr, args, ins):
